@@ -77,6 +77,7 @@ func reference(b hx.Behaviour, po hx.PubOutcome, withPub bool) expect {
 
 type spec struct {
 	WithPub  bool
+	NilPub   bool // (with WithPub false) registered through AddHandler with a nil publisher instead of AddNoPublisherHandler
 	MW       int  // recording pass-through middlewares in front
 	N        int  // messages
 	InFlight bool // several messages in flight concurrently
@@ -89,6 +90,9 @@ func (s spec) name() string {
 	k := "pub"
 	if !s.WithPub {
 		k = "nopub"
+	}
+	if s.NilPub {
+		k = "nilpub"
 	}
 	m := "seq"
 	if s.InFlight {
@@ -170,6 +174,12 @@ func body(sp spec) {
 	}
 	if sp.WithPub {
 		r.AddHandler("h", "in", sub, "out", pub, func(m *message.Message) ([]*message.Message, error) {
+			b, _ := handle(m)
+			return b.Do(m)
+		})
+	} else if sp.NilPub {
+		// AddHandler accepts a nil publisher: whatever the chain returns then has nowhere to go
+		r.AddHandler("h", "in", sub, "", nil, func(m *message.Message) ([]*message.Message, error) {
 			b, _ := handle(m)
 			return b.Do(m)
 		})
@@ -294,6 +304,10 @@ func init() {
 			add(reg.Quick, 5, spec{WithPub: withPub, MW: mw, N: 1, C: 1}, 2)
 		}
 		add(reg.Quick, 20, spec{WithPub: withPub, MW: 1, N: 2, C: 0}, 1)
+		if !withPub {
+			add(reg.Quick, 5, spec{NilPub: true, MW: 0, N: 1, C: 1}, 2)
+			add(reg.Quick, 10, spec{NilPub: true, MW: 1, N: 2, C: 0}, 1)
+		}
 		cq := 1
 		if withPub {
 			cq = 0 // 5 behaviours x 4 publisher outcomes per message: c = 1 does not fit the quick budget
